@@ -5,11 +5,13 @@ import (
 	"encoding/binary"
 	"fmt"
 	"math/rand"
+	"os"
 	"sync"
 	"sync/atomic"
 	"time"
 
 	dragonboat "github.com/lni/dragonboat/v4"
+	"github.com/lni/dragonboat/v4/client"
 	"github.com/lni/dragonboat/v4/internal/verifhook"
 	"github.com/lni/dragonboat/v4/verifh/cluster"
 	"github.com/lni/dragonboat/v4/verifh/common"
@@ -62,6 +64,7 @@ func runRequests(r *common.Run, sk *sink, caseNo int, rng *rand.Rand, seed int64
 	kind := []cluster.SMKind{cluster.Regular, cluster.Regular, cluster.Concurrent, cluster.OnDisk}[rng.Intn(4)]
 	winDelay := time.Duration(rng.Intn(3)) * time.Millisecond
 	var cancelAtApply sync.Map
+	var slowReplayHost int32 // host index + 1 whose state machine dwells in every Update (0: none)
 	fmt.Printf("requests case %d notifyCommit %v store %s sm %s windowDelay %v\n", caseNo, notify, store, kind, winDelay)
 	c := cluster.NewCluster(cluster.Options{Hosts: 3, Seed: seed, RTTMs: 10, Store: store, NotifyCommit: notify,
 		SMOpt: func(uint64, uint64) cluster.SMOptions {
@@ -69,6 +72,14 @@ func runRequests(r *common.Run, sk *sink, caseNo int, rng *rand.Rand, seed int64
 				// a client whose context ends exactly when its entry is applied on its host
 				if f, ok := cancelAtApply.Load([2]uint64{uint64(host), id}); ok {
 					f.(context.CancelFunc)()
+				}
+				// a replica that replays its log slowly after an in-process restart
+				if atomic.LoadInt32(&slowReplayHost) == int32(host)+1 {
+					sk.Count("updates_dwelling_during_slow_replay", 1)
+					if os.Getenv("VERIF_DEBUG") != "" {
+						fmt.Fprintf(os.Stderr, "DWELL %d id %d\n", time.Now().UnixNano()/1000, id)
+					}
+					time.Sleep(2 * time.Millisecond)
 				}
 			}}
 		}}, sk)
@@ -156,8 +167,23 @@ func runRequests(r *common.Run, sk *sink, caseNo int, rng *rand.Rand, seed int64
 			}
 		}
 	}
+	var sessMu sync.Mutex
+	sessions := map[int]*client.Session{}
+	noopSession := func(hi int, nh *dragonboat.NodeHost) *client.Session {
+		sessMu.Lock()
+		defer sessMu.Unlock()
+		if sessions[hi] == nil {
+			sessions[hi] = nh.GetNoOPSession(shardID)
+		}
+		return sessions[hi]
+	}
+	var forceHost int32 // host index + 1 that every request goes through, as proposals only (0: any host, any kind)
 	issue := func(g int, prng *rand.Rand) {
 		h := c.Hosts[prng.Intn(3)]
+		forced := atomic.LoadInt32(&forceHost)
+		if forced != 0 {
+			h = c.Hosts[forced-1]
+		}
 		nh := h.NodeHost()
 		if nh == nil {
 			return
@@ -168,11 +194,17 @@ func runRequests(r *common.Run, sk *sink, caseNo int, rng *rand.Rand, seed int64
 		var rs *dragonboat.RequestState
 		var err error
 		rec := &reqRec{host: h.Index, timeoutMs: toMs}
-		switch x := prng.Intn(20); {
+		x := prng.Intn(20)
+		if forced != 0 {
+			x = 0
+		}
+		switch {
 		case x < 11:
 			rec.kind = "propose"
 			rec.id = cluster.NewID()
-			rs, err = nh.Propose(nh.GetNoOPSession(shardID), cluster.MakeCmd(byte(prng.Intn(2)), rec.id), to)
+			// one NoOP session object per host, kept across restarts of the replica and of the NodeHost
+			// (a client does not make a new one for every proposal)
+			rs, err = nh.Propose(noopSession(h.Index, nh), cluster.MakeCmd(byte(prng.Intn(2)), rec.id), to)
 		case x < 17:
 			rec.kind = "readindex"
 			rs, err = nh.ReadIndex(shardID, to)
@@ -201,6 +233,9 @@ func runRequests(r *common.Run, sk *sink, caseNo int, rng *rand.Rand, seed int64
 			return
 		}
 		rec.acceptAt = c.Clock.Now()
+		if forced != 0 && os.Getenv("VERIF_DEBUG") != "" {
+			fmt.Fprintf(os.Stderr, "ACCEPT %d id %d to %d\n", time.Now().UnixNano()/1000, rec.id, toMs)
+		}
 		if rec.kind != "querylog" {
 			rec.acceptTick = c.Ticks(shardID, uint64(h.Index+1))
 		}
@@ -260,6 +295,10 @@ func runRequests(r *common.Run, sk *sink, caseNo int, rng *rand.Rand, seed int64
 			prng := rand.New(rand.NewSource(seed + 1000 + int64(g)*17))
 			lat := 3 * time.Millisecond // running estimate of the completion latency
 			for atomic.LoadInt32(&stopFlag) == 0 {
+				if atomic.LoadInt32(&pauseFlag) != 0 {
+					time.Sleep(5 * time.Millisecond)
+					continue
+				}
 				h := c.Hosts[prng.Intn(3)]
 				nh := h.NodeHost()
 				if nh == nil {
@@ -317,7 +356,74 @@ func runRequests(r *common.Run, sk *sink, caseNo int, rng *rand.Rand, seed int64
 	steps := 8 + rng.Intn(6)
 	for i := 0; i < steps; i++ {
 		h := c.Hosts[rng.Intn(3)]
-		switch rng.Intn(5) {
+		switch rng.Intn(6) {
+		case 5:
+			// two in-process restarts of one replica in a row (the NodeHost keeps running): the short
+			// incarnation in between makes a few dozen proposals through that host; the next incarnation
+			// replays them slowly while it makes its own first proposals
+			nh := h.NodeHost()
+			if nh == nil {
+				break
+			}
+			cfg := cluster.ShardConfig(shardID, uint64(h.Index+1))
+			cfg.SnapshotEntries, cfg.CompactionOverhead = 50, 5
+			// the other clients pause: the short incarnation's proposals are the tail of the log
+			atomic.StoreInt32(&pauseFlag, 1)
+			time.Sleep(30 * time.Millisecond)
+			{
+				// a snapshot now, so that the periodic one (every 50 entries) does not cover the short
+				// incarnation's proposals before the second restart
+				ctx, cancel := context.WithTimeout(context.Background(), time.Second)
+				_, _ = nh.SyncRequestSnapshot(ctx, shardID, dragonboat.SnapshotOption{})
+				cancel()
+			}
+			if nh.StopShard(shardID) != nil {
+				atomic.StoreInt32(&pauseFlag, 0)
+				break
+			}
+			restartNow := func() bool {
+				// StopShard returns before the replica is fully unloaded
+				for try := 0; try < 100; try++ {
+					if h.RestartReplica(members, kind, cfg) == nil {
+						return true
+					}
+					time.Sleep(5 * time.Millisecond)
+				}
+				return false
+			}
+			if !restartNow() {
+				atomic.StoreInt32(&pauseFlag, 0)
+				break
+			}
+			atomic.StoreInt32(&forceHost, int32(h.Index)+1)
+			time.Sleep(time.Duration(80+rng.Intn(80)) * time.Millisecond)
+			short := rand.New(rand.NewSource(seed ^ int64(i)*7919))
+			for k := 0; k < 20+rng.Intn(20); k++ {
+				issue(0, short)
+			}
+			time.Sleep(time.Duration(60+rng.Intn(60)) * time.Millisecond)
+			atomic.StoreInt32(&slowReplayHost, int32(h.Index)+1)
+			if nh.StopShard(shardID) == nil {
+				stopsUnderLoad++
+				ok := restartNow()
+				// proposals made before the replica knows the leader are dropped at once; the first
+				// proposals that can stay pending are made while the log is still being replayed
+				waitFor(300*time.Millisecond, func() bool {
+					_, _, known, err := nh.GetLeaderID(shardID)
+					return err == nil && known
+				})
+				if os.Getenv("VERIF_DEBUG") != "" {
+					fmt.Fprintf(os.Stderr, "UNPAUSE %d\n", time.Now().UnixNano()/1000)
+				}
+				atomic.StoreInt32(&pauseFlag, 0)
+				time.Sleep(time.Duration(150+rng.Intn(150)) * time.Millisecond)
+				if ok {
+					sk.Count("double_in_process_restart_with_slow_replay", 1)
+				}
+			}
+			atomic.StoreInt32(&pauseFlag, 0)
+			atomic.StoreInt32(&slowReplayHost, 0)
+			atomic.StoreInt32(&forceHost, 0)
 		case 0:
 			if li := c.LeaderHost(shardID, replicas); li >= 0 {
 				c.Net.Isolate(c.Hosts[li].Addr, rng.Intn(2) == 0)
